@@ -118,4 +118,32 @@ def option_contract(repo):
                 X = p.value[1]
                 goal = z3.ForAll([q], z3.IsMember(q, X) == z3.Or(q == KEYT, z3.And(T.has(O1, KEYT), z3.IsMember(q, T.TXset(gl, O1)))))
                 vcs.append(VC(f"Option:contract:explain#{i}", pre, goal, m))
+    # evaluate / validate of an Option without default, domain and declared type (laws.option_value_facts)
+    from .laws import option_value_facts
+    rx = T.resolve_exc(gl, O1)
+    okc = z3.And(T.has(O1, KEYT), T.resolve_ok(gl, O1))
+    for meth in ("evaluate", "validate"):
+        def run(ex, meth=meth):
+            s = ex.sym_self(ci)
+            s.fields["default"] = MISSING
+            s.fields["domain"] = MISSING
+            return observe(ex, ex.call_public(s, meth, [Sym("opt", O1)]))
+        ps = explore(repo, run, tag="oc" + meth[0], config=cfg)
+        u = sorted({p.value for p in ps if p.kind == "unsupported"})
+        if u:
+            und.append((f"Option.{meth}", u))
+            continue
+        for i, p in enumerate(ps):
+            pre = hyp + p.pc + p.defs
+            m = {"law": "contract", "cls": "Option"}
+            if p.kind == "ok":
+                goal = okc if meth == "validate" else z3.And(okc, p.value[1] == T.resolve_val(gl, O1))
+            else:
+                x = p.value.term
+                goal = z3.And(z3.Not(okc),
+                              z3.Implies(z3.Not(T.has(O1, KEYT)), z3.And(T.is_cls["KeyNotFoundError"](x), T.missing(x), T.mkey(x) == KEYT, T.exc_key(x) == KEYT)),
+                              z3.Implies(z3.And(T.has(O1, KEYT), T.is_cls["KeyError"](rx)),
+                                         z3.And(T.is_cls["KeyNotFoundError"](x), T.missing(x), T.mkey(x) == T.exc_key(rx), T.exc_key(x) == T.exc_key(rx))),
+                              z3.Implies(z3.And(T.has(O1, KEYT), z3.Not(T.is_cls["KeyError"](rx))), z3.And(z3.Not(T.missing(x)), z3.Not(T.is_cls["KeyNotFoundError"](x)))))
+            vcs.append(VC(f"Option:contract:{meth}#{i}", pre, goal, m))
     return vcs, und
